@@ -151,6 +151,24 @@ def mask_select(ex, args, kwargs, node):
     return Masked(view, mask, axis)
 
 
+@method("Masked", "call:min")
+def masked_min(ex, obj, args, kwargs, node, env, fr):
+    """a[mask].min() for a full-shape boolean mask: a lower bound of the selected entries that is attained (numpy raises ValueError
+    on an empty selection: obligation)"""
+    if args or kwargs or obj.axis != "all" or obj.full.kind not in ("int", "real"):
+        raise Unsupported(".min() of this selection")
+    a, mask = obj.full, obj.mask
+    idx = [z3.Int(fresh_name("i")) for _ in range(a.rank)]
+    guard = z3.And(*[z3.And(i >= 0, i < to_z3(d, "int")) for i, d in zip(idx, a.shape)])
+    ex.oblige("min_nonempty", z3.Exists(idx, z3.And(guard, mask.sel(*idx))), "min() of a non-empty selection (numpy raises ValueError otherwise)", node)
+    trusted(ex, "ndarray.min(): a lower bound of all selected entries that is attained")
+    m = z3.Const(fresh_name("min"), V.sort_of(a.kind))
+    ex.assume(z3.ForAll(idx, z3.Implies(z3.And(guard, mask.sel(*idx)), a.sel(*idx) >= m), patterns=[a.sel(*idx)]))
+    w = [z3.Int(fresh_name("argmin")) for _ in range(a.rank)]
+    ex.assume(z3.And(*[z3.And(i >= 0, i < to_z3(d, "int")) for i, d in zip(w, a.shape)], mask.sel(*w), a.sel(*w) == m))
+    return m
+
+
 def _len_match(ex, n, m, node):
     cn, cm = E._conc(n), E._conc(m)
     if cn is not None and cm is not None:
